@@ -439,6 +439,71 @@ fn stop_flag_case(t: &mut Tape, w: &Worker) -> CaseResult {
     Ok(out)
 }
 
+/// The error cap is reached (the controller raises the stop flag) while the producer on stdin has not closed the pipe
+/// yet; then ONE termination signal arrives.  A single signal is a request for an orderly stop, whatever raised the
+/// flag before: the run still ends by itself with the contract's exit status, never through the forced-exit path.
+fn cap_then_signal_case(t: &mut Tape, w: &Worker) -> CaseResult {
+    let mut out = CaseOut::default();
+    let n_hbf = 50 + t.below(300);
+    let every = 1 + t.below(3);
+    let mut packets = vec![];
+    for h in 0..n_hbf {
+        for (page, stop) in [(0u16, 0u8), (1, 1)] {
+            let mut r = Rdh { link_id: 4, fee_id: fee_id(2, 1, 7), orbit: 500 + h as u32, pages_counter: page, stop_bit: stop, ..Rdh::default() };
+            if (h * 2 + page as usize) % every == 0 && h > 0 {
+                r.bc_word = 0xFFF;
+            }
+            let mut p = Packet::new(r);
+            p.fix_sizes();
+            packets.push(p);
+        }
+    }
+    let stream = Stream::single(Link { packets, barrel: Barrel::Inner, lane_ids: vec![] });
+    let (bytes, _) = stream.encode();
+    let cap = 1 + t.below(20);
+    let e_code = 2 + t.below(254);
+    let mut args: Vec<String> = if t.chance(1, 2) { vec!["check".into(), "all".into()] } else { vec!["check".into(), "sanity".into()] };
+    args.extend(["-e".to_string(), cap.to_string(), "-E".to_string(), e_code.to_string()]);
+    if t.chance(1, 3) {
+        args.push("-m".into());
+    }
+    let sig = if t.chance(1, 2) { libc::SIGINT } else { libc::SIGTERM };
+    let delay_us = 400_000 + t.below(600_000) as u64;
+    let mut spec = RunSpec::new(args, Input::Pipe(Arc::new(bytes), 0));
+    spec.hold_stdin = Duration::from_millis(1800);
+    spec.action = Action::Signal(sig, delay_us);
+    spec.timeout = Duration::from_secs(40);
+    let o = cli::run(&w.cli, &spec);
+    out.execs = 1;
+    let detail = json!({"cmd": spec.describe(), "cap": cap, "signal": sig, "delay_us": delay_us, "stdin_held_open_ms": 1800, "out": o.brief()});
+    if o.timed_out {
+        out.labels.push("inconclusive:timeout".into());
+        return Ok(out);
+    }
+    if matches!(spec.action, Action::Signal(s, _) if o.signal == Some(s)) && !o.stderr.contains("panicked at") {
+        out.labels.push("signal_before_handler_installed".into());
+        return Ok(out);
+    }
+    if let Some(sg) = o.crash_signature() {
+        let short: String = sg.chars().take(90).collect();
+        return Err(Fail::new(format!("C17:cap-then-signal:{short}"), "a single signal after the error cap crashed the tool", detail));
+    }
+    if o.code != Some(0) && o.code != Some(e_code as i32) {
+        return Err(Fail::new(
+            "C17:cap-then-signal:exit-status",
+            format!("exit status {:?} after the error cap and ONE signal; an orderly stop gives 0 or the configured {e_code}", o.code),
+            detail,
+        ));
+    }
+    out.nontrivial = o.action_landed;
+    out.fingerprint = fnv64(format!("{n_hbf}{every}{cap}{sig}{delay_us}").as_bytes());
+    out.labels.push(if o.action_landed { "cap_then_signal:landed".into() } else { "cap_then_signal:after_exit".into() });
+    if w.take_sample() {
+        out.sample = Some(detail);
+    }
+    Ok(out)
+}
+
 pub fn build() -> Property {
     Property {
         id: "C17",
@@ -447,7 +512,7 @@ pub fn build() -> Property {
                perturbation {off, random, slow validator, slow collector, slow writer} x input size 0.1..8 MB (conforming G_conf stream replicated with shifted orbits so that queues fill). \
                Oracle: the process exits by itself within the watchdog (all threads joined), no panic text, no terminating signal, exit in {0,1,n}; a partial -o file is a prefix of the expected filtered output made of whole packets. \
                Non-trivial = the stop provably landed mid-run (process alive when signalled / pipe closed before EOF of the baseline output / cap below the error count / fatal message seen). \
-               Second phase (in-process, the statistics controller alone): message histories of up to 40 statistics messages (errors, counters, fatal) x error cap {none, 1..13, huge} x an outside stop request raised on the shared flag at any position; \
+               Phase cap_then_signal: errors on stdin with a small error cap, the pipe held open for 1.8 s after the data, one SIGINT / SIGTERM after 0.4 .. 1.0 s: the run ends by itself with exit 0 or n (never the forced-exit path). Further phase (in-process, the statistics controller alone): message histories of up to 40 statistics messages (errors, counters, fatal) x error cap {none, 1..13, huge} x an outside stop request raised on the shared flag at any position; \
                oracle: final flag = outside request OR cap reached OR fatal seen (a stop request is never withdrawn, nothing else raises it), the controller thread ends without panic.",
         assumptions: vec![
             "timing is sampled, not enumerated; a replay pins input, command, delay fraction and perturbation seed".into(),
@@ -460,6 +525,7 @@ pub fn build() -> Property {
                 kind: PhaseKind::Gen { cases: (1000, 8000), tape_len: 64 + 64 + 2000 + 4 * 4000, f: Box::new(case) },
                 threads: 16,
             },
+            Phase { name: "cap_then_signal", kind: PhaseKind::Gen { cases: (32, 300), tape_len: 16, f: Box::new(cap_then_signal_case) }, threads: 16 },
             Phase { name: "stop_flag_histories", kind: PhaseKind::Gen { cases: (4000, 60000), tape_len: 200, f: Box::new(stop_flag_case) }, threads: 8 },
         ],
     }
